@@ -37,9 +37,23 @@ def compare(ctx, rule, inst, code: Val, spec: Val, fi, key, strict_idiom=True):
     if strict_idiom and not (set(hc) <= set(hs)):
         return ctx.unknown(rule, inst, f"construction not recognised: it uses library calls outside the documented construction: {sorted(set(hc) - set(hs))} (documented {sorted(set(hs))})\ncode: {show(arr_term(code), 300)}",
                            fi.loc(), fi.qualname, key)
-    from .common import foreign_heads
+    from .common import foreign_heads, split_branches
     fh = foreign_heads(code, spec)
-    if any(isinstance(t, Gam) for t in walk_vals(code)) and not any(isinstance(t, Gam) for t in walk_vals(spec)):
+    if isinstance(code, Gam) and not isinstance(spec, Gam):
+        # a construction chosen by a condition: every branch has to be the documented one.  A differing branch taken under a condition on modelled
+        # quantities (lengths, parameters) is reachable - a violation; under a condition on something the rule does not model it is unknown.
+        def modelled(p_):
+            return not any(isinstance(t, Term) and (t.head in ('attr', 'getattr', 'unbound', 'item') or t.head.startswith(('lib:', 'method:', 'call:')))
+                           for t in walk_vals(p_))
+        differing = [(pth, val) for pth, val in split_branches(code) if not (same(val, spec) or (isinstance(val, Num) and isinstance(spec, Num) and val.struct_eq(spec)))]
+        if not differing:
+            return ctx.ok(rule, inst, '', fi.loc(), fi.qualname, key)
+        for pth, val in differing:
+            if all(modelled(p_) for p_ in pth) and not foreign_heads(val, spec):
+                return ctx.fail(rule, inst, f"when {' and '.join(str(p_)[:80] for p_ in pth)}:\ncode: {show(arr_term(val), 300)}\nspec: {show(arr_term(spec), 300)}",
+                                fi.loc(), fi.qualname, key)
+        fh = fh + ['conditional on a quantity the rule does not model']
+    elif any(isinstance(t, Gam) for t in walk_vals(code)) and not any(isinstance(t, Gam) for t in walk_vals(spec)):
         fh = fh + ['conditional on a quantity the rule does not model']
     if strict_idiom and fh:
         return ctx.unknown(rule, inst, f"construction not recognised: the value is built with constructs the documented construction does not use and the canonicaliser "
